@@ -67,6 +67,29 @@ type RateLimiter<T> = governor::RateLimiter<
 >;
 
 #[derive(Debug, Eq, PartialEq)]
+#[cfg(feature = "verif-hooks")]
+pub(crate) fn verif_compact_block_verify(block: &packed::CompactBlock) -> Status {
+    compact_block_verifier::CompactBlockVerifier::verify(block)
+}
+
+#[cfg(feature = "verif-hooks")]
+pub(crate) fn verif_block_transactions_verify(
+    block: &packed::CompactBlock,
+    indexes: &[u32],
+    transactions: &[core::TransactionView],
+) -> Status {
+    block_transactions_verifier::BlockTransactionsVerifier::verify(block, indexes, transactions)
+}
+
+#[cfg(feature = "verif-hooks")]
+pub(crate) fn verif_block_uncles_verify(
+    block: &packed::CompactBlock,
+    indexes: &[u32],
+    uncles: &[core::UncleBlockView],
+) -> Status {
+    block_uncles_verifier::BlockUnclesVerifier::verify(block, indexes, uncles)
+}
+
 pub enum ReconstructionResult {
     Block(BlockView),
     Missing(Vec<usize>, Vec<usize>),
